@@ -62,7 +62,15 @@ impl Primitive {
         match self {
             Primitive::Null => write!(out, "null")?,
             Primitive::Integer(i) => write!(out, "{}", i)?,
-            Primitive::Number(n) => write!(out, "{}", n)?,
+            Primitive::Number(n) => {
+                // a real is written with a '.': "2147483648" would be read back as an
+                // (overflowing) integer token
+                let s = n.to_string();
+                out.write_all(s.as_bytes())?;
+                if !s.contains('.') {
+                    out.write_all(b".")?;
+                }
+            }
             Primitive::Boolean(b) => write!(out, "{}", b)?,
             Primitive::String(ref s) => s.serialize(out)?,
             Primitive::Stream(ref s) => s.serialize(out)?,
